@@ -179,7 +179,9 @@ def aggregate(prop, mod, tier, seed, results, reach, totals, lost, t0):
     ev = {
         "property_id": prop, "tier": tier, "seed": seed, "level": "exploration",
         "coverage": {
-            "evaluations": len(results),
+            # executions judged by the monitors (a generated case usually holds several systems / frames / polygons)
+            "evaluations": max(len(results), held + violated + inconclusive),
+            "generated_cases": len(results),
             "distinct_nontrivial": len(sigs),
             "rule": mod.RULE,
             "samples": samples if samples else [{"case": results[0]["case"]}] if results else [],
